@@ -343,6 +343,7 @@ def make_specs(prop, tier, rng):
     built before the worker processes are forked"""
     n_total = {'quick': 900, 'thorough': 30000}[tier]
     specs = []
+    want_big = [False]
     while len(specs) < n_total:
         r = rng.random()
         n = rng.choice([1, 2, 2, 3, 3, 3, 4, 4])
@@ -382,7 +383,13 @@ def make_specs(prop, tier, rng):
                     tag8[i] = [(v if j == keep or rng.random() < 0.3 else -32768) for j, v in enumerate(tag8[i])]
                     if rng.random() < 0.25:
                         tag8[i] = [-32768] * len(tag8[i])      # a row the category dictionary flattened entirely
-        if prop == 'C02' and g['kind'].startswith('synthetic') and len(specs) % 75 == 7:
+        if prop == 'C02' and len(specs) % 75 == 7:
+            want_big[0] = True
+        # only for sentences of at most three words: the 70 000 categories come back wherever the two lexical categories meet in the
+        # second sentence too (rule results are cached per call), and every one of them costs a grammar callback per neighbour -
+        # a four-word sentence with every tag admitted then searches for minutes and would be mistaken for a search that hangs
+        if want_big[0] and g['kind'].startswith('synthetic') and n <= 3:
+            want_big[0] = False
             cfg = dict(cfg, bigtable=True)
         elif rng.random() < 0.25:
             dn = rng.choice([1, 2, 3])
